@@ -60,6 +60,9 @@ pub struct AppSpec {
     pub geom_truncate: usize,
     /// every third edge's stored linestring repeats one of its points (a zero-length segment, as digitised data has)
     pub geom_repeat: bool,
+    /// every fifth edge's stored linestring runs against the edge (digitised the other way round): renderings keep
+    /// stored geometries as they are
+    pub geom_reversed: bool,
     /// some vertices have no identifier: their row of the identifier table is blank
     pub uuid_blanks: bool,
     /// road class / vehicle restriction data for the edge matcher (independent of the frontier)
@@ -100,6 +103,7 @@ impl AppSpec {
             geom_points: 2,
             geom_truncate: 0,
             geom_repeat: false,
+            geom_reversed: false,
             uuid_blanks: false,
             matcher_classes: None,
             matcher_vehicle_rows: None,
@@ -245,11 +249,13 @@ pub fn edge_geometry(spec: &AppSpec, e: usize) -> Vec<(f32, f32)> {
                 b
             } else {
                 let t = i as f32 / (n - 1) as f32;
-                let bulge = 0.0001 * ((e % 7) as f32 + 1.0) * (t * (1.0 - t));
+                // not symmetric in t, so that no stored geometry reads the same in both directions
+                let bulge = 0.0001 * ((e % 7) as f32 + 1.0) * (t * (1.0 - t)) * (0.5 + t);
                 (a.0 + (b.0 - a.0) * t + bulge, a.1 + (b.1 - a.1) * t - bulge)
             }
         })
         .collect();
+    let pts: Vec<(f32, f32)> = if spec.geom_reversed && e % 5 == 2 { pts.into_iter().rev().collect() } else { pts };
     if spec.geom_repeat && e % 3 == 0 {
         // repeat the point at position e % n (first, interior or last)
         let k = e % n;
